@@ -365,6 +365,38 @@ func c19ConnectionFaults(c *Ctx, done chan<- struct{}) {
 		"GET /docs/index.html HTTP/1.1\r\nHost: x\r\n",
 		"",
 	}
+	// 4. a kept connection that has been idle for longer than the server's write timeout (10 s) but well inside its idle
+	// allowance (30 s), and then carries a request with "Expect: 100-continue"; beside it a control connection, idle just
+	// as long, that carries the same request without the header. Opened here, used after the pauses below.
+	type keptConn struct {
+		conn net.Conn
+		br   *bufio.Reader
+		t0   time.Time
+	}
+	openKept := func(ctr uint64) *keptConn {
+		conn, err := net.DialTimeout("tcp", srv.addr, 5*time.Second)
+		if err != nil {
+			return nil
+		}
+		conn.SetDeadline(time.Now().Add(60 * time.Second))
+		_, wire := rawProbe(key, sec, ctr)
+		conn.Write(wire)
+		br := bufio.NewReader(conn)
+		resp, err := http.ReadResponse(br, &http.Request{Method: "POST"})
+		if err != nil {
+			conn.Close()
+			return nil
+		}
+		io.Copy(io.Discard, resp.Body)
+		resp.Body.Close()
+		if resp.StatusCode != 200 || resp.Close {
+			conn.Close()
+			return nil
+		}
+		return &keptConn{conn, br, time.Now()}
+	}
+	keptExpect, keptPlain := openKept(70001), openKept(70002)
+
 	var conns []net.Conn
 	for rep := 0; rep < 3; rep++ {
 		for _, s := range stalls {
@@ -389,6 +421,179 @@ func c19ConnectionFaults(c *Ctx, done chan<- struct{}) {
 	}
 	if ok {
 		probes(2, "stalled clients went away")
+	}
+	c19ExpectAfterIdle(c, srv, key, sec, keptExpect != nil && keptPlain != nil, func() (net.Conn, *bufio.Reader, time.Time, net.Conn, *bufio.Reader) {
+		return keptExpect.conn, keptExpect.br, keptExpect.t0, keptPlain.conn, keptPlain.br
+	})
+	c19UnparsableTargets(c, srv, key, sec)
+	probes(3, "requests with unparsable targets or Host headers")
+}
+
+// c19ExpectAfterIdle: see item 4 above. The connections have been idle since t0; the wait below brings that to 11.5 s.
+// A server may close an idle connection whenever it likes - so the verdict needs (a) both connections still open
+// after the idle time (nothing to read, no EOF), and (b) the control request answered: then a request that differs only
+// in carrying "Expect: 100-continue" must be answered too (100 Continue and then the answer, or the answer at once).
+func c19ExpectAfterIdle(c *Ctx, srv *server, key []byte, sec string, have bool, get func() (net.Conn, *bufio.Reader, time.Time, net.Conn, *bufio.Reader)) {
+	r := c.R
+	if !have {
+		r.Count("expect_after_idle_not_run", 1)
+		return
+	}
+	ec, ebr, t0, pc, pbr := get()
+	defer ec.Close()
+	defer pc.Close()
+	if d := 11500*time.Millisecond - time.Since(t0); d > 0 {
+		time.Sleep(d) // the idle time is the input here, not a verdict
+	}
+	stillOpen := func(conn net.Conn, br *bufio.Reader) bool {
+		conn.SetReadDeadline(time.Now().Add(20 * time.Millisecond))
+		_, err := br.Peek(1)
+		conn.SetReadDeadline(time.Now().Add(30 * time.Second))
+		ne, isNet := err.(net.Error)
+		return err != nil && isNet && ne.Timeout()
+	}
+	if !stillOpen(ec, ebr) || !stillOpen(pc, pbr) {
+		r.Count("expect_after_idle_connection_closed_while_idle", 1)
+		return
+	}
+	k, _ := rawProbe(key, sec, 70003)
+	body := jsonBody(k.F)
+	head := func(expect bool) []byte {
+		h := fmt.Sprintf("POST /hotp/generate HTTP/1.1\r\nHost: x\r\nContent-Type: application/json\r\nContent-Length: %d\r\n", len(body))
+		if expect {
+			h += "Expect: 100-continue\r\n"
+		}
+		return []byte(h + "\r\n")
+	}
+	read := func(br *bufio.Reader) (*httpResult, error) {
+		resp, err := http.ReadResponse(br, &http.Request{Method: "POST"})
+		if err != nil {
+			return nil, err
+		}
+		b, rerr := io.ReadAll(resp.Body)
+		resp.Body.Close()
+		if rerr != nil {
+			return nil, rerr
+		}
+		return &httpResult{Status: resp.StatusCode, Header: resp.Header, Body: b}, nil
+	}
+	// control first
+	pc.Write(append(head(false), body...))
+	pa, perr := read(pbr)
+	if perr != nil || pa.Status != 200 {
+		r.Count("expect_after_idle_control_not_answered", 1)
+		return
+	}
+	ec.Write(head(true))
+	ea, eerr := read(ebr)
+	if eerr == nil && ea.Status == 100 {
+		ec.Write(body)
+		ea, eerr = read(ebr)
+	} else if eerr == nil {
+		ec.Write(body) // answered at once: the body is still owed to the connection
+	}
+	r.Eval(1)
+	r.Count("expect_after_idle_exchanges", 1)
+	r.Nontrivial("expect-after-idle")
+	if eerr != nil {
+		k.Note = "request with Expect: 100-continue on a connection idle for 11.5 s"
+		r.Violate("C19|connection|no-response|expect-100-continue-after-idle-beyond-write-timeout", "a well-formed request carrying \"Expect: 100-continue\", sent on a kept connection that has been idle for 11.5 s (the same request without the header, on a connection idle just as long, is answered), receives no response: the server reads it and closes", "rest", k,
+			"100 Continue and the answer, or the answer", "no response: "+eerr.Error())
+		return
+	}
+	k.Note = "request with Expect: 100-continue on a connection idle for 11.5 s"
+	judgeRESTWith(c, srv, k, ea, 0, 0)
+}
+
+// c19UnparsableTargets: request targets and Host headers that an HTTP parser may fail on (control bytes in the target,
+// broken authorities, Host values that are no host), each combined with an unknown path and with known paths. Whatever
+// the server makes of them, a 2xx answer must be the answer of the path that was asked for: the success object of that
+// endpoint - never a success for a path that does not exist, and never another endpoint's answer.
+func c19UnparsableTargets(c *Ctx, srv *server, key []byte, sec string) {
+	r := c.R
+	hosts := []string{"x", "a:b", "[::1", "a b", "x/y", "ex%41mple.com", "[fe80::1%eth0]:8080", "", "a\tb", "x:99999", "-", "x,y"}
+	type tgt struct {
+		method, target, path string // path: what the target asks for ("" = unknown path)
+		body                 []byte
+	}
+	hk, _ := rawProbe(key, sec, 70010)
+	hb := jsonBody(hk.F)
+	base := []tgt{{"GET", "/no/such/endpoint", "", nil}, {"GET", "/otp/secret?algorithm=SHA512", "/otp/secret", nil}, {"GET", "/ocra/suites", "/ocra/suites", nil}, {"POST", "/hotp/generate", "/hotp/generate", hb}, {"GET", "/docs/nothing-here", "", nil}}
+	var cases []struct {
+		t    tgt
+		host string
+		note string
+	}
+	for _, t := range base {
+		for _, h := range hosts {
+			cases = append(cases, struct {
+				t    tgt
+				host string
+				note string
+			}{t, h, "Host: " + fmt.Sprintf("%q", h)})
+		}
+		for _, m := range []string{"\x01", "\x7f", "?q=\t", "#\x00", "%", "%zz", "\\", " x", "?a=\x1b[0m"} {
+			t2 := t
+			t2.target = t.target + m
+			if strings.Contains(t.target, "?") && strings.HasPrefix(m, "?") {
+				t2.target = t.target + "&" + m[1:]
+			}
+			cases = append(cases, struct {
+				t    tgt
+				host string
+				note string
+			}{t2, "x", "target with " + fmt.Sprintf("%q", m)})
+		}
+		for _, a := range []string{"http://[::1", "http://a b", "http://x:y", "//x", "http:/x", "HTTP://X"} {
+			t2 := t
+			t2.target = a + t.target
+			cases = append(cases, struct {
+				t    tgt
+				host string
+				note string
+			}{t2, "x", "absolute-form target with authority " + fmt.Sprintf("%q", a)})
+		}
+	}
+	for _, k := range cases {
+		conn, err := net.DialTimeout("tcp", srv.addr, 5*time.Second)
+		if err != nil {
+			continue
+		}
+		conn.SetDeadline(time.Now().Add(20 * time.Second))
+		var wire bytes.Buffer
+		fmt.Fprintf(&wire, "%s %s HTTP/1.1\r\nHost: %s\r\n", k.t.method, k.t.target, k.host)
+		if k.t.body != nil {
+			fmt.Fprintf(&wire, "Content-Type: application/json\r\nContent-Length: %d\r\n", len(k.t.body))
+		}
+		wire.WriteString("Connection: close\r\n\r\n")
+		wire.Write(k.t.body)
+		conn.Write(wire.Bytes())
+		resp, err := http.ReadResponse(bufio.NewReader(conn), &http.Request{Method: k.t.method})
+		r.Eval(1)
+		r.Count("unparsable_target_requests", 1)
+		if err != nil {
+			conn.Close()
+			r.Count("unparsable_target_requests_refused_by_closing", 1)
+			continue
+		}
+		body, _ := io.ReadAll(resp.Body)
+		resp.Body.Close()
+		conn.Close()
+		r.Nontrivial("target|" + k.t.method + " " + k.t.target + "|" + k.host)
+		r.Count(fmt.Sprintf("unparsable_target_status_%dxx", resp.StatusCode/100), 1)
+		if resp.StatusCode < 200 || resp.StatusCode > 299 {
+			continue
+		}
+		cas := map[string]any{"method": k.t.method, "target": k.t.target, "host": k.host, "what": k.note}
+		if k.t.path == "" {
+			r.Violate("C19|unknown-path|status-does-not-distinguish|unparsable-target-or-host", "a request for a path that does not exist is answered with a success status when its target or Host header is one the server's parser fails on", "none", cas,
+				"a failure status (the same target with a plain Host gets 404)", fmt.Sprintf("%d %s", resp.StatusCode, clipS(string(body))))
+			continue
+		}
+		if ok, why := successSchemaOK(k.t.path, body); !ok {
+			r.Violate("C19|"+k.t.path+"|status-does-not-distinguish|unparsable-target-or-host", "a request for "+k.t.path+" whose target or Host header the server's parser fails on is answered 2xx, but not with that endpoint's success object: "+why, "none", cas,
+				"the endpoint's success object, or a failure status", fmt.Sprintf("%d %s", resp.StatusCode, clipS(string(body))))
+		}
 	}
 }
 
@@ -461,4 +666,117 @@ func c19WideText(c *Ctx, srv *server) *server {
 		}
 	}
 	return srv
+}
+
+// c19SilentClients: clients that connect and never send a byte, arriving in waves from different loopback source
+// addresses (so that no per-address limit applies), each wave after the previous one has been silent for longer than
+// the server's read timeout. A server that gives up on silent connections holds two waves at most; one that keeps
+// them for good accumulates descriptors. To make that observable without opening tens of thousands of sockets the
+// server of this phase runs with a descriptor limit of 170 (set by a wrapper script; the limit is the test's
+// resource budget, like the 2 CPU-seconds of the work bound): after each wave a well-formed probe must be answered
+// and the process must be alive. Runs beside the other phases.
+func c19SilentClients(c *Ctx, done chan<- struct{}) {
+	defer close(done)
+	r := c.R
+	if c.Env["VERIF_SERVER_BIN_FDLIMIT"] == "" {
+		r.Inconclusive("silent clients: wrapper for a descriptor-limited server not available")
+		return
+	}
+	srv, err := startServer(c, "VERIF_SERVER_BIN_FDLIMIT")
+	if err != nil {
+		r.Inconclusive("silent clients: descriptor-limited server could not be started: " + err.Error())
+		return
+	}
+	defer srv.stop()
+	key := []byte("12345678901234567890")
+	sec := ref.Base32Encode(key)
+	var held []net.Conn
+	defer func() {
+		for _, conn := range held {
+			conn.Close()
+		}
+	}()
+	waves, per := c.N(5, 9), 40
+	for w := 0; w < waves; w++ {
+		opened := 0
+		for i := 0; i < per; i++ {
+			// source address 127.0.(w+1).(i%4+1): ten connections per address
+			d := net.Dialer{Timeout: 3 * time.Second, LocalAddr: &net.TCPAddr{IP: net.IPv4(127, 0, byte(w+1), byte(i%4+1))}}
+			conn, err := d.Dial("tcp", srv.addr)
+			if err != nil {
+				continue
+			}
+			held = append(held, conn)
+			opened++
+		}
+		r.Count("silent_connections_opened", opened)
+		r.Eval(1)
+		// longer than the read timeout (5 s): the silence is the input
+		time.Sleep(6200 * time.Millisecond)
+		k, _ := rawProbe(key, sec, uint64(80000+w))
+		k.Note = fmt.Sprintf("probe after %d waves of %d silent connections, 6.2 s apart (server limited to 170 descriptors)", w+1, per)
+		k.Fresh = true
+		if !srv.alive() {
+			r.Violate("C19|server|died|silent-connections", "the server process exited while clients that never send anything were accumulating (they are never given up on, each costs a descriptor, and when none is left the accept loop ends)", "rest", k, "alive", "exited; see server log")
+			return
+		}
+		res := srv.do("POST", "/hotp/generate", jsonBody(k.F), true, 20*time.Second)
+		if res.Err != nil {
+			r.Violate("C19|/hotp/generate|no-response|silent-connections", "a well-formed request is not answered while connections on which nothing was ever sent are being held by the server beyond its read and idle timeouts", "rest", k, "200 + JSON", res.Err.Error())
+			return
+		}
+		judgeRESTWith(c, srv, k, &res, 0, 0)
+		r.Count("probes", 1)
+	}
+	// how many of the silent connections has the server given up on (closed) by now?
+	closed := 0
+	for _, conn := range held {
+		conn.SetReadDeadline(time.Now().Add(5 * time.Millisecond))
+		var b [1]byte
+		if _, err := conn.Read(b[:]); err != nil {
+			if ne, ok := err.(net.Error); !ok || !ne.Timeout() {
+				closed++
+			}
+		} else {
+			closed++ // the server said something (a refusal) - it has dealt with the connection
+		}
+	}
+	r.Extra["silent_connections_closed_by_the_server_at_the_end"] = fmt.Sprintf("%d of %d", closed, len(held))
+	// then more connections at one moment than the server has descriptors for (220 from six addresses against the limit
+	// of 170), held for a second and closed again: when the burst is over the service must still be there
+	for _, conn := range held {
+		conn.Close()
+	}
+	held = nil
+	time.Sleep(500 * time.Millisecond)
+	var burst []net.Conn
+	for i := 0; i < 220; i++ {
+		d := net.Dialer{Timeout: 2 * time.Second, LocalAddr: &net.TCPAddr{IP: net.IPv4(127, 0, 100, byte(i%6+1))}}
+		if conn, err := d.Dial("tcp", srv.addr); err == nil {
+			burst = append(burst, conn)
+		}
+	}
+	r.Count("burst_connections_opened", len(burst))
+	r.Eval(1)
+	time.Sleep(time.Second)
+	for _, conn := range burst {
+		conn.Close()
+	}
+	time.Sleep(1500 * time.Millisecond)
+	{
+		k, _ := rawProbe(key, sec, 81000)
+		k.Note = "probe after a burst of 220 simultaneous connections against a server limited to 170 descriptors, all closed again"
+		k.Fresh = true
+		if !srv.alive() {
+			r.Violate("C19|server|died|descriptors-exhausted", "the server process exited when more connections arrived at one moment than it has descriptors for (the accept loop ends on the error instead of waiting for a descriptor)", "rest", k, "alive once the burst is over", "exited; see server log")
+			return
+		}
+		res := srv.do("POST", "/hotp/generate", jsonBody(k.F), true, 20*time.Second)
+		if res.Err != nil {
+			r.Violate("C19|/hotp/generate|no-response|descriptors-exhausted", "a well-formed request is not answered after a burst of connections that exhausted the server's descriptors has gone away", "rest", k, "200 + JSON", res.Err.Error())
+			return
+		}
+		judgeRESTWith(c, srv, k, &res, 0, 0)
+		r.Count("probes", 1)
+	}
 }
